@@ -96,8 +96,6 @@ Theorem C14_gp_primal_grad_conjugate_refuted :
   exists al u w stored_r, gp_interior al u w /\
     ~ gp_conjugate_w (gp_gradient_primal_F4 TOpsR stored_r al u w) al w.
 Proof. exact gp_primal_grad_conjugate_refuted. Qed.
-Theorem C14_example_gp_interior : gp_interior [1 / 4; 3 / 4] [1; 1] [1].
-Proof. exact gp_interior_example. Qed.
 (* the Wright-omega iteration solves w + ln w = z to 1e-6 for every z in [1, 1000] *)
 Theorem C14_wright_omega_enclosure : forall z, (0 <= z <= 1000)%R -> wright_residual_ok z.
 Proof. exact wright_omega_enclosure. Qed.
@@ -121,9 +119,9 @@ Proof. exact exp_unit_init_central_ok. Qed.
 Theorem C14_gp_unit_init_central : stmt_gp_unit_init_central.
 Proof. exact gp_unit_init_central_ok. Qed.
 (* non-vacuity of the interior hypotheses *)
-Theorem C14_example_exp_dual : exp_dual_int (-1, 0, 1)%R.
-Proof. exact exp_dual_int_example. Qed.
-Theorem C14_example_exp_primal : exp_primal_int (0, 1, 2)%R.
-Proof. exact exp_primal_int_example. Qed.
-Theorem C14_example_pow_dual : pow_dual_int (1 / 4)%R (1, 1, 1)%R.
-Proof. exact pow_dual_int_example. Qed.
+Theorem C14_examples :
+  exp_dual_int (-1, 0, 1)%R /\ exp_primal_int (0, 1, 2)%R /\ pow_dual_int (1 / 4)%R (1, 1, 1)%R /\
+  gp_interior [1 / 4; 3 / 4]%R [1; 1]%R [1]%R.
+Proof.
+  exact (conj exp_dual_int_example (conj exp_primal_int_example (conj pow_dual_int_example gp_interior_example))).
+Qed.
